@@ -316,7 +316,7 @@ func c16Patterns(thorough bool) []string {
 	return pats
 }
 
-// c16BuildBig builds the large tree: 12 files a0…a11, .h and 12 directories d0…d11 per level, d1/d1/d1/d1 four levels deep.
+// c16BuildBig builds the large tree: 12 files a0…a11, .h and 12 directories d0…d11 per level, a hidden directory .d at the top, d1/d1/d1/d1 four levels deep.
 func c16BuildBig(base string) (string, bool) {
 	root := filepath.Join(base, "big")
 	os.RemoveAll(root)
@@ -336,6 +336,7 @@ func c16BuildBig(base string) (string, bool) {
 	for i := 0; i < 12; i++ {
 		mk(filepath.Join(root, fmt.Sprintf("d%d", i)))
 	}
+	mk(filepath.Join(root, ".d")) // a hidden directory (with its own hidden file)
 	mk(filepath.Join(root, "d1", "d1"))
 	mk(filepath.Join(root, "d1", "d1", "d1"))
 	mk(filepath.Join(root, "d1", "d1", "d1", "d1"))
@@ -391,7 +392,9 @@ func c16Run(w *W) {
 			w.Count("states", 1)
 			w.Announce("large tree")
 			for _, p := range []string{"*", "a*", "a?", "a??", "a1*", "a1?", "a[0-9]", "a1[0-9]", "[ad]*", "d*", "d*/", "d*/a*", "d1/*", "*/*", "*/a1?", "*/*/*", "*/*/*/*", "*/*/*/*/*", "d1/d1/d1/d1/*", "d?/d?/d?/d?/a1*", "*/*/*/*/*/*",
-				"d1*/a2", "d[0-9]/.h", "*/.*", "@ROOT@/*", "@ROOT@/d1/*/a1?", "d1//d1///a*", "./d1/./a*", "d1/../a1*", "*1", "*1/", "*1/*1", "?1*"} {
+				"d1*/a2", "d[0-9]/.h", "*/.*", "@ROOT@/*", "@ROOT@/d1/*/a1?", "d1//d1///a*", "./d1/./a*", "d1/../a1*", "*1", "*1/", "*1/*1", "?1*",
+				// a component that begins with a literal period followed by components that do not (and the reverse)
+				".d*/*", ".d*/.*", ".d?/*", ".[d]*/*", ".d*/*/", ".d*/a1?", ".d/*", "*/.d*", ".d*/../*", "d1/.h*/*", ".d*/.h*"} {
 				w.Count("evaluations", 1)
 				w.Count("large_tree_patterns", 1)
 				d, nt, skipped := c16Judge(root, p)
@@ -403,7 +406,7 @@ func c16Run(w *W) {
 					w.Count("distinct_nontrivial", 1)
 				}
 				if d != "" {
-					w.Violation("", c16Case{[]c16Entry{{"large tree: 12 files a0…a11, .h and 12 directories d0…d11 per level, d1/d1/d1/d1 four levels deep", "dir"}}, p}, d)
+					w.Violation("", c16Case{[]c16Entry{{"large tree: 12 files a0…a11, .h and 12 directories d0…d11 per level, a hidden directory .d at the top, d1/d1/d1/d1 four levels deep", "dir"}}, p}, d)
 				}
 			}
 		}
